@@ -1202,7 +1202,7 @@ pub fn main(args: &Args) -> i32 {
                 probe_fail.push(format!("calls to {must}"));
             }
         }
-        if acc.map_entry_damaged > 0 && acc.map_entry_damaged_decoded * 100 / acc.map_entry_damaged < 30 {
+        if acc.map_entry_damaged > 0 && acc.map_entry_damaged_decoded * 100 / acc.map_entry_damaged < 25 {
             probe_fail.push(format!("progress: only {} of {} damaged documents still decoded", acc.map_entry_damaged_decoded, acc.map_entry_damaged));
         }
     }
